@@ -345,11 +345,18 @@ class LocationMonitor:
             "source": ctx.get("name"), "layout": ctx.get("layout"), "text": text,
             "node": type(node).__name__, "message": str(error.message)[:300],
         }
-        blank_feature = re.match(r"[ \t\x0c]+(#|\r?\n)", text) is not None
+        # Labels for the mechanism key only (the verdict comes from the independent
+        # conversion below): does the text range of the module start after offset 0, and
+        # does the node carry a token range at all?
+        try:
+            blank_feature = atok.get_text_range(atok.tree)[0] != 0
+        except Exception:  # noqa
+            blank_feature = False
+        untokened = not hasattr(node, "first_token")
         if err is not None:
             key = "location/error_message-raised|" + type(err).__name__
             if blank_feature:
-                key += "|text-starts-with-blank-before-comment-or-newline"
+                key += "|module-text-range-starts-after-offset-0"
             chk.violation(key, dict(witness, exception=repr(err)[:300]))
             chk.case(None)
             return
@@ -398,8 +405,11 @@ class LocationMonitor:
             chk.count("located_errors_without_ast_reference")
         if ok_table and ok_node:
             return
-        if blank_feature:
-            key = "location/mismatch|text-starts-with-blank-before-comment-or-newline"
+        if untokened:
+            # e.g. nodes inside f-strings: asttokens gives them no range -> offset 0
+            key = "location/node-without-token-range-reported-at-offset-0"
+        elif blank_feature:
+            key = "location/mismatch|module-text-range-starts-after-offset-0"
         elif not ok_table and text[start:start + 1] == "\n":
             key = "location/mismatch|construct-range-starts-at-a-newline-character"
         elif not ok_table:
@@ -464,10 +474,18 @@ def worker(argv: List[str], shard: int, nshards: int, budget: float) -> Dict[str
     monitor = LocationMonitor(chk)
     try:
         for i, (name, layout, text) in enumerate(build_cases(chk, shard, nshards)):
-            if chk.elapsed() > budget:
+            # stop at the wall budget; on an overloaded machine go on (up to 3x) until this
+            # worker's share of the minimum observation counts is reached
+            late = chk.elapsed() > budget
+            if late and (chk.evaluations >= chk.pick(120, 1500) or chk.elapsed() > 3 * budget):
                 chk.count("cases_skipped_by_wall_budget")
                 continue
-            run_case(chk, monitor, name, layout, text, ("python", "jsonschema", "xsd")[i % 3])
+            try:
+                run_case(chk, monitor, name, layout, text, ("python", "jsonschema", "xsd")[i % 3])
+            except (UnicodeError, OSError) as err:
+                # the driver could not even write the case (e.g. a lone surrogate that an
+                # escape in the model put into a snippet): not an observation
+                chk.hist("cases_the_driver_could_not_prepare", type(err).__name__)
     finally:
         monitor.uninstall()
     return chk.export()
